@@ -536,12 +536,18 @@ def r5_indicators(ctx, repo):
         rt = trs[-1] if trs else rets[-1].value
         rv = text(rt)
         okd = isinstance(rt, ast.BinOp) and isinstance(rt.op, ast.Div) and text(rt.right) == "len(%s)" % comp \
-            and (access_path(rt.left.func) if isinstance(rt.left, ast.Call) else "") in ("np.sum", "sum", "numpy.sum", "np.nansum")
+            and ((access_path(rt.left.func) if isinstance(rt.left, ast.Call) else "") in ("np.sum", "sum", "numpy.sum", "np.nansum", "math.fsum")
+                 or (isinstance(rt.left, ast.Call) and isinstance(rt.left.func, ast.Attribute) and rt.left.func.attr in ("sum", "nansum") and not rt.left.args and not rt.left.keywords))
         okm = isinstance(rt, ast.Call) and (access_path(rt.func) or "").split(".")[-1] in ("mean", "nanmean")
         if okd or okm:
             ctx.holds("R5", C, where(mod, rets[-1]), "mean over the computed set: %s" % rv, key="gd-mean")
-        else:
+        elif isinstance(rt, ast.BinOp) and isinstance(rt.op, ast.Div) and text(rt.right) in ("len(%s)" % ref, "%s.shape[0]" % ref) and "sum" in text(rt.left):
+            ctx.violated("R5", C, where(mod, rets[-1]), "the result %s divides the sum of the minima by the size of the REFERENCE set, not of the computed set" % rv, key="gd-mean")
+        elif isinstance(rt, ast.Call) and (access_path(rt.func) or "").split(".")[-1] in ("sum", "nansum", "max", "min", "median") or \
+                (isinstance(rt, ast.BinOp) and isinstance(rt.op, ast.Div) and text(rt.right) == "len(%s)" % comp and (access_path(getattr(rt.left, "func", None)) or "").split(".")[-1] in ("max", "min", "median", "prod")):
             ctx.violated("R5", C, where(mod, rets[-1]), "the result %s is not the sum of the minima divided by the size of the computed set" % rv, key="gd-mean")
+        else:
+            ctx.inconclusive("R5", C, where(mod, rets[-1]), "the result %s is not recognised as the mean of the minima over the computed set" % rv, key="gd-mean")
 
     # epsilon_add nest
     C = "quality_indicator.epsilon_add"
